@@ -22,18 +22,21 @@ CONSTANTS MaxDepth,
           UnmaskedViaOpenTree   \* FALSE = the code (fsopen first); TRUE: the "unmasked" handle is an open_tree clone of the host mount (seeded change C08d)
 
 VARIABLES priv, hostopt, ctor, pathkind,     \* the case
+          fsopen,                             \* can a privileged caller create NEW procfs instances (fsopen/fsmount)?  If not (seccomp
+                                              \* profile, user namespace that does not own the pid namespace) its private handles are
+                                              \* open_tree clones of the host mount -- as masked as the host
           stack,                              \* frames of nested open() calls: each [masked]
           nhandles, res, done,
           nextkind,                           \* path kind of a second lookup on the same handle ("none": no second lookup)
           useless                             \* the handle's memory (only with RememberENOENT)
 
-vars == <<priv, hostopt, ctor, pathkind, stack, nhandles, res, done, nextkind, useless>>
+vars == <<priv, hostopt, ctor, pathkind, fsopen, stack, nhandles, res, done, nextkind, useless>>
 
 HostOpts == {"default", "hidepid1", "hidepid2", "ptraceable", "subsetpid"}
 \* what a freshly created handle looks like
 PrivateInstance(unmasked) == [masked |-> ~unmasked]                \* fsopen: subset=pid unless unmasked
 HostMasked == (hostopt = "subsetpid") \/ (hostopt \in {"hidepid1", "hidepid2", "ptraceable"} /\ ~priv)
-NewHandle(unmasked) == IF priv THEN (IF unmasked /\ UnmaskedViaOpenTree THEN [masked |-> hostopt = "subsetpid"] ELSE PrivateInstance(unmasked))
+NewHandle(unmasked) == IF priv THEN (IF ~fsopen \/ (unmasked /\ UnmaskedViaOpenTree) THEN [masked |-> hostopt = "subsetpid"] ELSE PrivateInstance(unmasked))
                        ELSE [masked |-> HostMasked]
 FirstHandle == IF ctor = "new" THEN NewHandle(FALSE) ELSE [masked |-> HostMasked]     \* ctor "hostfd": try_from_fd(open("/proc"))
 
@@ -41,7 +44,7 @@ FirstHandle == IF ctor = "new" THEN NewHandle(FALSE) ELSE [masked |-> HostMasked
 Exists(h) == pathkind = "existing" \/ (pathkind = "maskedpath" /\ ~h.masked)
 
 Init ==
-    /\ priv \in BOOLEAN /\ hostopt \in HostOpts /\ ctor \in {"new", "hostfd"} /\ pathkind \in {"existing", "missing", "maskedpath"}
+    /\ priv \in BOOLEAN /\ fsopen \in BOOLEAN /\ hostopt \in HostOpts /\ ctor \in {"new", "hostfd"} /\ pathkind \in {"existing", "missing", "maskedpath"}
     /\ stack = <<FirstHandle>> /\ nhandles = 1 /\ res = "none" /\ done = FALSE
     /\ nextkind \in {"none", "existing", "missing", "maskedpath"} /\ useless = FALSE
 
@@ -55,14 +58,14 @@ Lookup ==
             /\ UNCHANGED <<res, done, useless>>
        ELSE /\ res' = "ENOENT" /\ done' = TRUE /\ UNCHANGED <<stack, nhandles>>
             /\ useless' = (useless \/ (RememberENOENT /\ Len(stack) > 1))
-    /\ UNCHANGED <<priv, hostopt, ctor, pathkind, nextkind>>
+    /\ UNCHANGED <<priv, hostopt, ctor, pathkind, nextkind, fsopen>>
 
 \* a second lookup on the same (first) handle
 Again ==
     /\ done /\ nextkind # "none"
     /\ pathkind' = nextkind /\ nextkind' = "none"
     /\ stack' = <<stack[1]>> /\ nhandles' = 1 /\ res' = "none" /\ done' = FALSE
-    /\ UNCHANGED <<priv, hostopt, ctor, useless>>
+    /\ UNCHANGED <<priv, hostopt, ctor, useless, fsopen>>
 
 Spec == Init /\ [][Lookup \/ Again]_vars
 
@@ -70,5 +73,5 @@ HandlesBounded == nhandles <= 2
 MissingIsENOENT == (done /\ pathkind = "missing") => res = "ENOENT"
 ExistingIsFound == (done /\ pathkind = "existing") => res = "ok"
 \* a privileged caller can always build an unmasked private instance, so what exists there is found
-VisibleToPrivilegedIsFound == (done /\ pathkind = "maskedpath" /\ priv) => res = "ok"
+VisibleToPrivilegedIsFound == (done /\ pathkind = "maskedpath" /\ priv /\ fsopen) => res = "ok"
 =============================================================================
